@@ -312,6 +312,7 @@ pub fn run(ctx: &Ctx) -> ! {
         "%Z carries no offset and %s no zone in chrono: such probes are run but only counted".into(),
     ];
     let mut verdict = rep.finish(ctx);
+    verdict.harness_errors += ev.worker_errors as u32;
     if tz_changed == 0 {
         eprintln!("HARNESS: sanity probe tz_changed_result is 0: the timezone knob does not reach the code");
         verdict.harness_errors += 1;
